@@ -91,6 +91,7 @@ const STAGES: &[(&str, StageFn)] = &[
     ("c10.stress", c10::stress),
     ("c10.large", c10::large),
     ("c10.bulk", c10::bulk),
+    ("c10.straggler", c10::straggler),
     ("c11.one", cgr::one),
     ("c11.reject", cgr::reject),
     ("c11.file", cgr::file),
